@@ -8,6 +8,8 @@
 package locales
 
 import (
+	"sync"
+
 	"github.com/kaptinlin/gozod/core"
 	"github.com/kaptinlin/gozod/pkg/slicex"
 )
@@ -19,6 +21,10 @@ import (
 // LocaleErrorMap maps locale names to their corresponding formatter functions
 // Following TypeScript Zod v4's functional approach instead of struct-based patterns
 type LocaleErrorMap map[string]func(core.ZodRawIssue) string
+
+// localesMu guards DefaultLocales: RegisterLocale may be called while other
+// goroutines format errors or list the available locales.
+var localesMu sync.RWMutex
 
 // DefaultLocales contains the default supported locales using functional approach
 // Supports both full locale codes (zh-CN) and short codes (zh, en)
@@ -70,6 +76,9 @@ var DefaultLocales = LocaleErrorMap{
 // LocaleFormatter returns a formatter function for the given locale.
 // Falls back to English if the locale is not found, ensuring robust operation.
 func LocaleFormatter(locale string) func(core.ZodRawIssue) string {
+	localesMu.RLock()
+	defer localesMu.RUnlock()
+
 	if formatter, exists := DefaultLocales[locale]; exists {
 		return formatter
 	}
@@ -96,17 +105,29 @@ func LocalizedError(issue core.ZodRawIssue, locale string) string {
 // RegisterLocale adds a new locale to the default locales map
 // Allows runtime registration of additional locales and custom formatters
 func RegisterLocale(locale string, formatFunc func(core.ZodRawIssue) string) {
+	localesMu.Lock()
+	defer localesMu.Unlock()
 	DefaultLocales[locale] = formatFunc
+}
+
+// hasLocale reports whether a formatter is registered for the locale.
+func hasLocale(locale string) bool {
+	localesMu.RLock()
+	defer localesMu.RUnlock()
+	_, exists := DefaultLocales[locale]
+	return exists
 }
 
 // AvailableLocales returns a list of all registered locale identifiers.
 // Useful for UI components that need to display available localization options.
 // Uses slicex for better slice handling.
 func AvailableLocales() []string {
+	localesMu.RLock()
 	locales := make([]string, 0, len(DefaultLocales))
 	for locale := range DefaultLocales {
 		locales = append(locales, locale)
 	}
+	localesMu.RUnlock()
 
 	// Use slicex to sort and deduplicate locales
 	if sortedLocales, err := slicex.Unique(locales); err == nil {
@@ -169,8 +190,7 @@ func ValidateLocaleList(locales []string) (valid []string, invalid []string, err
 	// Filter valid locales
 	validAny, err := slicex.Filter(locales, func(locale any) bool {
 		if localeStr, ok := locale.(string); ok {
-			_, exists := DefaultLocales[localeStr]
-			return exists
+			return hasLocale(localeStr)
 		}
 		return false
 	})
@@ -181,8 +201,7 @@ func ValidateLocaleList(locales []string) (valid []string, invalid []string, err
 	// Filter invalid locales
 	invalidAny, err := slicex.Filter(locales, func(locale any) bool {
 		if localeStr, ok := locale.(string); ok {
-			_, exists := DefaultLocales[localeStr]
-			return !exists
+			return !hasLocale(localeStr)
 		}
 		return false
 	})
